@@ -82,6 +82,23 @@ Proof. exact fill_segment_geom. Qed.
 (* the permutation of the compression function as read from src/argon2.rs on this run -- the
    statements of the g closure, the eight g calls of blake2_round_nomsg, the sixteen index
    expressions of each loop of fill_block -- is the one the model runs *)
+(* the block the loop reads at every iteration is the RFC's: column j - 1 (mod q) of the same lane and
+   the reference-set mapping of J1; and the loop does nothing but these steps, in order *)
+Theorem C09_indices_are_rfc : forall n I pass lane slice dia i curr prev,
+  geom I -> 7 * segment_length I <= 2 ^ 32 -> 0 <= pass -> 0 <= lane < lanes I -> 0 <= slice <= 3 -> 0 <= i ->
+  (pass = 0 -> slice = 0 -> 2 <= i) ->
+  i + Z.of_nat n = segment_length I ->
+  curr = lane * lane_length I + slice * segment_length I + i ->
+  (n = O \/ curr mod lane_length I = 1 \/ prev = (if curr mod lane_length I =? 0 then curr + lane_length I - 1 else curr - 1)) ->
+  forall k e, nth_error (seg_loop_trace n I pass lane slice dia i curr prev) k = Some e ->
+  rfc_indices I pass lane slice (i + Z.of_nat k) e.
+Proof. exact seg_loop_trace_rfc. Qed.
+
+Theorem C09_loop_is_its_trace : forall n I pass lane slice dia i curr prev,
+  memory (seg_loop n I pass lane slice dia i curr prev) =
+  fold_left (apply_entry (lane_length I) (negb (pass =? 0))) (seg_loop_trace n I pass lane slice dia i curr prev) (memory I).
+Proof. exact seg_loop_follows_trace. Qed.
+
 Theorem C09_permutation_from_source : forall (prev_block ref_block next_block : block) (with_xor : bool),
   (let block_r := xor_block ref_block prev_block in
    let block_tmp := if with_xor then xor_block block_r next_block else block_r in
